@@ -18,7 +18,9 @@ CLAIMS = {
             "binder lets through is defined, and for ALL 85 functions of the regenerated table exec never panics and returns the declared "
             "type on every well-bound argument vector; Props/C08File.file_total composes the layers: processFile never panics on ANY byte "
             "string; Props/C08Batch (command-line loop, Model/Batch.lean): reports independent of the other inputs, exit status 1 iff some "
-            "input failed wherever it stands, good inputs' outputs complete and failed ones absent. Correspondence/oracle: every function x parameter x 15 value types + boundary values "
+            "input failed wherever it stands, good inputs' outputs complete and failed ones absent; Props/C08Loc: an error raised while executing a "
+            "statement is located at a token of THAT statement (eval, addStmt, addStmts, up to processFile: the parser never builds the one tree "
+            "shape for which the register would be stale; the line lies between the neighbouring semicolons). Correspondence/oracle: every function x parameter x 15 value types + boundary values "
             "in-process, method sequences, reference shapes, source fuzz incl. invalid UTF-8, batches, nesting probes; fail-safe contract "
             "(exit status, diagnostic position, output removal) judged on the real binary. Native stack exhaustion is outside the model "
             "(known finding K04).", "7 C08", "Lean proof (no-panic theorems per layer, per-function over the regenerated table) + panic census on the real code (partial: native stack)"),
@@ -75,7 +77,10 @@ CLAIMS = {
             "7 C13", "Lean proof (lexer/interpreter no-op lemmas) + environment differential runs + syscall audit (partial: environment clause not a theorem)"),
     'C14': ("Theorems for every library table: rebinding rejected, use-before-bind/import rejected, re-import no-op, statements in order, "
             "arguments left-to-right exactly once (trace semantics), let-bound values frozen and re-emittable in any order, inlining of "
-            "pure lets and renaming of positions leave the output unchanged. Correspondence + metamorphic relations on the real binary.",
+            "pure lets and renaming of positions leave the output unchanged; Props/C14Order: the first faulty operand in source order decides "
+            "(slash operands, argument lists, calls); Props/C14Heap: for all 85 library functions a call touches only the object it is "
+            "called on, its result depends only on that object, calls on different objects commute. Correspondence + metamorphic relations "
+            "on the real binary (fault order, twin objects, stored emission, imports on the line of a use).",
             "7 C14", "Lean proof (interpreter simulation lemmas) + metamorphic differential runs"),
     'C02': ("Theorems for every builder (TCP flow ops, UDP flow/unicast/broadcast/DNS/VXLAN, ICMP, ipv4::datagram, fragments, GRE/ERSPAN) and "
             "all payloads/options with total length <= 65535: Spec.ipv4Ok (version/IHL, total length, checksum) and every requested field reads "
@@ -91,7 +96,8 @@ CLAIMS = {
             "Lean proof (builder equations) + framed/raw differential runs"),
     'C06': ("Theorems: one outer per inner in order, byte-identical payload, header fields per kind, ERSPAN II/GRE sequence counts packets "
             "from zero across calls, unwrap (wrap layers inner) = inner for every nesting list; Props/C06Any: for inner frames of ANY size "
-            "(no fit hypothesis) the positional decoder recovers the inner frame, per kind, per call and through every nesting. "
+            "(no fit hypothesis) the positional decoder recovers the inner frame, per kind, per call and through every nesting; Props/C14Heap: "
+            "sessions share no state (per-session counters). "
             "Correspondence: all nestings to depth 2/3 + random to depth 5, inner frames up to 70000 bytes; real pcap peeled by the Spec "
             "decoders and compared with the un-encapsulated run.", "7 C06",
             "Lean proof (decoder round trips, history invariant, induction over layers) + correspondence"),
